@@ -578,7 +578,7 @@ def install(lib):
             it.ctx.assume(z3.Length(r) >= 1)
             it.ctx.assume((z3.Length(r) == 1) == z3.Not(z3.Contains(s.t, sep.t)))
             it.ctx.assume(z3.Implies(z3.Length(r) == 1, r[0] == s.t))
-            return VCell(VSeq(r, Str, 'list'), 'list')
+            return VCell(VSeq(r, Str if isinstance(s, VStr) else Bytes, 'list'), 'list')
         if len(a) == 3 and is_conc(sep) and is_conc(it.ctx.force(a[2])):
             mx = conc(it.ctx.force(a[2]))
             it.engine.assumed.add('A-strlib: bytes/str.split(sep, maxsplit) as uninterpreted py_splitn')
@@ -586,6 +586,8 @@ def install(lib):
             r = f(s.t, sep.t)
             it.ctx.assume(z3.Length(r) >= 1)
             it.ctx.assume(z3.Length(r) <= mx + 1)
+            if mx >= 1:
+                it.ctx.assume((z3.Length(r) >= 2) == z3.Contains(s.t, sep.t))
             return VCell(VSeq(r, Str if isinstance(s, VStr) else Bytes, 'list'), 'list')
         raise Unsupported('split with symbolic separator', n)
     sm['split'] = _split
@@ -1015,6 +1017,13 @@ def install(lib):
         ext = z3.If(has_ext, z3.SubString(p.t, dot, z3.Length(p.t) - dot), z3.StringVal(''))
         return VTuple([VStr(simp(root)), VStr(simp(ext))])
     op['splitext'] = _splitext
+
+    env = VOpaque(z3.Const('os_environ', U), 'os.environ')
+    env.attrs = {'get': VFunc('os.environ.get', lambda it, a, k, n: VStr(it.ctx.fresh_const('envvar', S))),
+                 'copy': VFunc('os.environ.copy', lambda it, a, k, n: VCell(VMap(it.ctx.fresh_const('environ', DictT(Str, Str).sort()), Str, Str), 'dict'))}
+    for v_ in env.attrs.values():
+        v_.bind = False
+    lib.modules['os']['environ'] = env
 
     # ------------------------------------------------------------ stat / errno
     st = lib.modules.setdefault('stat', {})
